@@ -1,5 +1,6 @@
 import DeltaModel.Proto
 import DeltaModel.Blame
+import DeltaModel.BlameFormat
 open Proto
 
 /-!
@@ -199,9 +200,45 @@ def itemCode (it : Item) : String :=
   ",".intercalate [hexOfStr it.pre, fieldCode it.ph, alignCode it.align, optNatCode it.width,
     optNatCode it.prec, hexOfStr it.suf]
 
+def fmtErrText : PF.FmtErr → String
+  | .badWidth => "Invalid width in format string"
+  | .badPrecision => "Invalid precision in format string"
+  | .unknownLabel => "Unexpected `git blame` input"
+
+/-- `blame.format_data x<fmt>`: the model's own reading of a `--blame-format` string, in the form the
+implementation's `blame.format_data` answers. -/
+def doFormatData (f : String) : String :=
+  match strOfField f with
+  | none => "ERR"
+  | some l =>
+    match PF.parseBlameFormat l with
+    | .error e => "PANIC " ++ hexOfString (fmtErrText e)
+    | .ok items => s!"ok {items.length} " ++ " ".intercalate (items.map itemCode)
+
+def labelSet : String → Option (List Str)
+  | "blame" => some Generated.BlameFormat.blameLabels
+  | "sep" => some Generated.BlameFormat.separatorLabels
+  | "linenum" => some Generated.BlameFormat.lineNumberLabels
+  | _ => none
+
+/-- `blame.parse_format <blame|sep|linenum> x<fmt>`: `parse_line_number_format` with the regex of that
+label set: `ok <k> {x<prefix> <x<label>|-> <l|c|r|-> <width|-> <precision|-> x<type> x<suffix>}*`. -/
+def doParseFormat (ls f : String) : String :=
+  match labelSet ls, strOfField f with
+  | some labels, some l =>
+    match PF.parseFormat labels l with
+    | .error e => "PANIC " ++ hexOfString (fmtErrText e)
+    | .ok items =>
+      s!"ok {items.length}" ++ String.join (items.map fun it =>
+        " " ++ " ".intercalate [hexOfStr it.pre, (match it.label with | some lab => hexOfStr lab | none => "-"),
+          alignCode it.align, optNatCode it.width, optNatCode it.prec, hexOfStr it.ty, hexOfStr it.suf])
+  | _, _ => "ERR"
+
 def step (line : String) : String :=
   match fields line with
   | ["blame.parse", l] => doParse l
+  | ["blame.format_data", f] => doFormatData f
+  | ["blame.parse_format", ls, f] => doParseFormat ls f
   | "blame.colors" :: fs => doColors fs
   | "blame.meta" :: fs => doMeta fs
   | "blame.number" :: fs => doNumber fs
